@@ -31,7 +31,9 @@ type FuncContract struct {
 	Requires    []Clause
 	Ensures     []Clause
 	Modifies    []*Expr
+	Assigns     []string // ghost variables the function may change
 	ModifiesAll bool
+	ModifiesMaps bool
 	Loops       map[string]*LoopSpec
 	LoopOrder   []string
 	Inline      bool
@@ -51,7 +53,23 @@ type PureFunc struct {
 	PkgPath string
 }
 
+// GhostFunc is an uninterpreted spec function: //@ ghost func name(a T, b U) R
+type GhostFunc struct {
+	Name    string
+	Params  []QVar
+	Result  string
+	PkgPath string
+}
+
+type GhostVar struct {
+	Name    string
+	Type    string
+	PkgPath string
+}
+
 type ContractFile struct {
+	GhostVars []*GhostVar
+	Ghosts  []*GhostFunc
 	PkgPath string
 	Path    string
 	Funcs   []*FuncContract
@@ -63,7 +81,7 @@ type ContractFile struct {
 var clauseKeywords = map[string]bool{
 	"func": true, "lemma": true, "extern": true, "opaque": true, "pure": true, "props": true, "arith": true,
 	"requires": true, "ensures": true, "modifies": true, "loop": true, "inline": true, "trusted": true,
-	"nosafe": true, "effectfree": true, "uses": true,
+	"nosafe": true, "effectfree": true, "uses": true, "ghost": true, "assigns": true,
 }
 
 var labelRe = regexp.MustCompile(`^([A-Za-z_][A-Za-z0-9_]*)\s*:\s*([^:=].*)$`)
@@ -161,6 +179,31 @@ func ParseContractFile(path, pkgPath string) (*ContractFile, error) {
 					cur.LemmaParams = append(cur.LemmaParams, QVar{n, strings.TrimSpace(t)})
 				}
 			}
+		case "ghost":
+			if strings.HasPrefix(rest, "var ") {
+				f := strings.Fields(rest)
+				if len(f) != 3 {
+					addErr(rc.line, "ghost var <name> <type>")
+					continue
+				}
+				cf.GhostVars = append(cf.GhostVars, &GhostVar{Name: f[1], Type: f[2], PkgPath: pkgPath})
+				cur = nil
+				continue
+			}
+			rest = strings.TrimSpace(strings.TrimPrefix(rest, "func"))
+			name, ps, _ := strings.Cut(rest, "(")
+			ps, res, _ := strings.Cut(ps, ")")
+			gf := &GhostFunc{Name: strings.TrimSpace(name), Result: strings.TrimSpace(res), PkgPath: pkgPath}
+			for _, p := range strings.Split(ps, ",") {
+				p = strings.TrimSpace(p)
+				if p == "" {
+					continue
+				}
+				n, t, _ := strings.Cut(p, " ")
+				gf.Params = append(gf.Params, QVar{n, strings.TrimSpace(t)})
+			}
+			cf.Ghosts = append(cf.Ghosts, gf)
+			cur = nil
 		case "opaque":
 			cf.Opaque = append(cf.Opaque, strings.TrimSpace(strings.TrimPrefix(rest, "type")))
 		case "pure":
@@ -220,6 +263,10 @@ func ParseContractFile(path, pkgPath string) (*ContractFile, error) {
 					cur.ModifiesAll = true
 					break
 				}
+				if rest == "maps" {
+					cur.ModifiesMaps = true
+					break
+				}
 				for _, part := range splitTopLevel(rest, ',') {
 					e, err := ParseSpec(part)
 					if err != nil {
@@ -258,6 +305,8 @@ func ParseContractFile(path, pkgPath string) (*ContractFile, error) {
 				default:
 					addErr(rc.line, "unknown loop clause %q", k2)
 				}
+			case "assigns":
+				cur.Assigns = append(cur.Assigns, strings.FieldsFunc(rest, func(r rune) bool { return r == ',' || r == ' ' })...)
 			case "inline":
 				cur.Inline = true
 			case "trusted":
